@@ -17,8 +17,8 @@ PROP = {
         ],
         "runs": [{
             "component": "slots",
-            "quick": {"gen": [(4000, 50)], "enum": [(2, 4, 4)]},
-            "thorough": {"gen": [(60000, 80)], "enum": [(2, 4, 5), (3, 3, 4, "z"), (1, 2, 5), (3, 64, 4, "z")]},
+            "quick": {"gen": [(12000, 60)], "enum": [(2, 4, 4), (3, 3, 4, "z")]},
+            "thorough": {"gen": [(150000, 80)], "enum": [(2, 4, 5), (3, 3, 5, "z"), (1, 2, 5), (3, 64, 4, "z"), (3, 5, 5)]},
         }],
         "rule": "scripts = NewByteBuffer + NewSlotSequencer(maxSlots, maxBytes) followed by the documented workflow pairs "
                 "park = Write/Commit/Save(n)/Push(seq)/Discard-on-rejection and take = Pop(seq)/SavedSlot/Discard, in four styles "
@@ -51,7 +51,10 @@ PROP = {
                       "bytes and leaves every other packet in place, duplicates and limit errors change nothing, Bytes()/Size()/Saved() equal "
                       "the parked totals, nothing panics; Fenwick SumUntil/Sum = prefix sums after any Adds, loops terminate. Unbounded "
                       "induction over the operation list. Outside the theorems (carried by the differential check only): empty packets, the "
-                      "bare-SlotOffsetter stream, sort.Search and buffer capacity, int overflow.",
+                      "bare-SlotOffsetter stream, sort.Search and buffer capacity, int overflow. Observed limitation (accepted by the monitor, not a "
+                      "violation): the offsetter's index space of maxBytes cells is consumed by discards, so a sequencer that never drains "
+                      "eventually answers every Push with ErrNoSpaceLeftForSlot although Bytes()/Size() are small; the error is reported, the "
+                      "state is unchanged and addressing stays exact; draining to empty resets it.",
         "design_ref": "5/C20",
         "level_note": "Trusted: Lean kernel; the hand-written model (exercised on every run by the differential trace check against the real "
                       "ByteBuffer + SlotSequencer/SlotOffsetter, including exhaustive small scopes); go2lean for OffsetSlot. Finding for the "
